@@ -312,6 +312,16 @@ def _mix_late(s):
   return gen()
 
 
+def _mix_frac(s):
+  m = Streamix()
+  for delta, src in zip((0.4, 2.4, 2.4, 0.7), s):   # cumulative .4 2.8 5.2 5.9
+    m.add(delta, src)
+  return m
+
+
+E("streamix/fractional-deltas", 4, _mix_frac,
+  lambda k: (k, max(0, k - 3), max(0, k - 5), max(0, k - 6)), vals="float",
+  kmax=12)
 E("streamix/added-during-playback", 2, _mix_late,
   lambda k: (k, max(0, k - 3)), vals="float")
 E("control/expression", 1,
@@ -336,15 +346,21 @@ E("synth/table-lookup", 1,
 
 # ---- I. resample ----------------------------------------------------------------------
 def _res_need(old, new, order):
+  """Output m interpolates the p+1 neighbours first(m) .. first(m)+p with
+  first(m) = ceil(m*old/new - (p+1)/2): nothing beyond the last neighbour is
+  needed."""
   def need(m1):      # m1 outputs = output indices 0..m1-1
     m = m1 - 1
-    return (int(math.floor(Fraction(m * old, new))) +
-            int(math.ceil((order + 1) / 2.0)) + 1,)
+    first = math.ceil(Fraction(m * old, new) - Fraction(order + 1, 2))
+    return (int(first) + order + 1,)
   return need
 
 
 for _old, _new, _order in [(1, 1, 3), (1, 2, 3), (3, 2, 1), (5, 3, 2),
-                           (1, 3, 5), (2, 1, 4), (7, 5, 3)]:
+                           (1, 3, 5), (2, 1, 4), (7, 5, 3),
+                           # heavy decimation, integer and dyadic factors
+                           (5, 1, 1), (8, 1, 3), (16, 1, 3), (11, 2, 1),
+                           (9, 1, 0), (25, 2, 2), (12, 1, 5), (33, 4, 3)]:
   E("resample/%d-%d-o%d" % (_old, _new, _order), 1,
     lambda s, a=_old, b=_new, c=_order: resample(
       s[0], old=Fraction(a), new=Fraction(b), order=c),
